@@ -18,6 +18,8 @@ from vcheck.core import Task, Violation
 ID = 'C16'
 LEVEL = 'exploration'
 BUDGET = {'quick': 45, 'thorough': 420}
+# deterministic sub-checks repeated in a `python -O` child (core.optimized_child)
+OPT_SUBS = ('typeerror', 'table', 'to_utf8')
 RULE = ('Hypothesis text (full Unicode without surrogates for the UTF '
         'codecs: BMP, astral, combining; for latin-1/ascii/cp1252/shift_jis/'
         'koi8-r/big5 an alphabet of the code points of Latin, Greek, '
